@@ -3,30 +3,25 @@ import signal
 import time
 from contextlib import contextmanager
 
-
-class Timeout(BaseException):
-    pass
-
-
-_stack = []
+_stack = []  # entries: [deadline, exception instance, active]
 
 
 def _handler(signum, frame):
     now = time.time()
-    # fire the innermost expired budget
     for i in range(len(_stack) - 1, -1, -1):
-        deadline, exc = _stack[i]
-        if now >= deadline - 1e-3:
-            raise exc
+        e = _stack[i]
+        if e[2] and now >= e[0] - 1e-3:
+            e[2] = False  # fire once
+            raise e[1]
     _rearm()
 
 
 def _rearm():
-    if not _stack:
+    live = [e[0] for e in _stack if e[2]]
+    if not live:
         signal.setitimer(signal.ITIMER_REAL, 0)
         return
-    nxt = min(d for d, _ in _stack)
-    signal.setitimer(signal.ITIMER_REAL, max(nxt - time.time(), 0.01))
+    signal.setitimer(signal.ITIMER_REAL, max(min(live) - time.time(), 0.01))
 
 
 @contextmanager
@@ -36,10 +31,21 @@ def timebox(seconds, exc):
     except ValueError:  # not in main thread
         yield
         return
-    _stack.append((time.time() + seconds, exc))
+    e = [time.time() + seconds, exc, True]
+    _stack.append(e)
     _rearm()
     try:
         yield
     finally:
-        _stack.pop()
-        _rearm()
+        # a late alarm may interrupt this cleanup: swallow it and finish the cleanup
+        for _ in range(5):
+            try:
+                e[2] = False
+                if e in _stack:
+                    _stack.remove(e)
+                _rearm()
+                break
+            except BaseException as late:  # noqa: BLE001
+                if late is not exc and not any(late is x[1] for x in _stack):
+                    raise
+                continue
